@@ -629,6 +629,7 @@ func main() {
 	}
 	plainHistories(r)
 	plainChildHistories(r)
+	dirtyDestination(r)
 	racePass(r)
 	runtime.GC()
 	r.States(nStates)
